@@ -75,12 +75,12 @@ def OutsFresh (env : Env) (sig : Sig) (args : List Val) : Prop :=
   OldOKs env (outFields sig) (outVals sig.params args)
 
 /-- what the caller's `opts` maps hold after the proxy's copy-back of the response context `rctx` and
-    status `rst` (non-nil maps): one map given → it holds the response context; two → context and
-    status; none (or more than two) → nothing is copied -/
+    status `rst`: one map given → it holds the response context; two → context and status; none (or
+    more than two) → nothing is copied.  A nil map stays nil (current code: it is skipped). -/
 def copiedMaps (opts : List (Option StrMap)) (rctx rst : StrMap) : Option StrMap × Option StrMap :=
   match opts with
-  | [_] => (some rctx, none)
-  | [_, _] => (some rctx, some rst)
+  | [c] => (c.map fun _ => rctx, none)
+  | [c, s] => (c.map fun _ => rctx, s.map fun _ => rst)
   | _ => optsMaps opts
 
 /-- the round-trip normal form (C03 `normVar`) of a return value / of the out values -/
